@@ -128,7 +128,8 @@ func solveObligation(o *Obligation, dir string, timeoutS int, all bool) {
 		o.Status = "unknown"
 		for _, r := range results {
 			if r.verdict == "error" {
-				o.Output += "\n" + firstLines(r.out, 5)
+				o.Output += "\n" + firstLines(r.out, 2)
+				break
 			}
 		}
 		if o.Cover {
